@@ -15,7 +15,7 @@ theorem facts_decode : F = Decode.expectedFacts := by decide
 
 /-- **header conditions**: when no two *supported* conditions of a route share a header name, the decoded
 matcher set is exactly the supported conditions, in order (nothing lost, nothing invented) -/
-theorem headers_preserved (compiles : String → Bool) (hs : List PHeader)
+theorem headers_preserved (compiles : Oracles) (hs : List PHeader)
     (hd : ((hs.filterMap (supported compiles)).map (·.1)).Nodup) :
     buildMatchers compiles hs = hs.filterMap (supported compiles) := by
   rw [buildMatchers_eq_foldl]
@@ -24,65 +24,65 @@ theorem headers_preserved (compiles : String → Bool) (hs : List PHeader)
 
 /-- what counts as supported: a non-empty exact or prefix pattern, or a non-empty regular expression that compiles;
 everything else (empty patterns, non-compiling regexes, other matcher kinds) is dropped -/
-theorem supported_exact (compiles : String → Bool) (n s : String) :
+theorem supported_exact (compiles : Oracles) (n s : String) :
     supported compiles ⟨n, .stringMatch (.exact s)⟩ = if s ≠ "" then some (n, .exact s) else none := rfl
-theorem supported_prefix (compiles : String → Bool) (n s : String) :
+theorem supported_prefix (compiles : Oracles) (n s : String) :
     supported compiles ⟨n, .stringMatch (.pfx s)⟩ = if s ≠ "" then some (n, .pfx s) else none := rfl
-theorem supported_regex (compiles : String → Bool) (n r : String) :
-    supported compiles ⟨n, .stringMatch (.safeRegex (some r))⟩ = if r ≠ "" ∧ compiles r then some (n, .regex r) else none := rfl
-theorem supported_other (compiles : String → Bool) (n : String) :
+theorem supported_regex (compiles : Oracles) (n r : String) :
+    supported compiles ⟨n, .stringMatch (.safeRegex (some r))⟩ = if r ≠ "" ∧ compiles.compiles r then some (n, .regex r) else none := rfl
+theorem supported_other (compiles : Oracles) (n : String) :
     supported compiles ⟨n, .other⟩ = none ∧ supported compiles ⟨n, .stringMatch .other⟩ = none ∧
     supported compiles ⟨n, .stringMatch (.safeRegex none)⟩ = none := ⟨rfl, rfl, rfl⟩
 
 /-- known limitation made explicit (finding S13): with two supported conditions on one header name only the last
 survives — the hypothesis of `headers_preserved` is needed -/
 theorem dup_header_names_shadow :
-    buildMatchers (fun _ => true) [⟨"k", .stringMatch (.exact "a")⟩, ⟨"k", .stringMatch (.pfx "b")⟩] = [("k", .pfx "b")] := by
+    buildMatchers ⟨fun _ => true, fun _ => true⟩ [⟨"k", .stringMatch (.exact "a")⟩, ⟨"k", .stringMatch (.pfx "b")⟩] = [("k", .pfx "b")] := by
   decide
 
-theorem retryExtStep_frame (d0 : DRetry) (h : PHeader) :
-    (retryExtStep d0 h).numRetries = d0.numRetries ∧ (retryExtStep d0 h).perTry = d0.perTry ∧
-    (retryExtStep d0 h).perTryIdle = d0.perTryIdle ∧ (retryExtStep d0 h).retryOn = d0.retryOn ∧
-    (retryExtStep d0 h).backoff = d0.backoff := by
+theorem retryExtStep_frame (O : Oracles) (d0 : DRetry) (h : PHeader) :
+    (retryExtStep O d0 h).numRetries = d0.numRetries ∧ (retryExtStep O d0 h).perTry = d0.perTry ∧
+    (retryExtStep O d0 h).perTryIdle = d0.perTryIdle ∧ (retryExtStep O d0 h).retryOn = d0.retryOn ∧
+    (retryExtStep O d0 h).backoff = d0.backoff := by
   unfold retryExtStep
   by_cases h1 : extValue h = ""
   · simp [h1]
   · by_cases h2 : h.name = "kitexRetryErrorRate"
-    · simp [h1, h2]
+    · by_cases h4 : O.parsesFloat (extValue h) = true <;> simp [h1, h2, h4]
     · by_cases h3 : h.name = "kitexRetryMethods" <;> simp [h1, h2, h3]
 
 /-- the retriable-header extensions touch only the error rate and the method list -/
-theorem retryExt_frame (hs : List PHeader) (d0 : DRetry) :
-    (retryExt hs d0).numRetries = d0.numRetries ∧ (retryExt hs d0).perTry = d0.perTry ∧
-    (retryExt hs d0).perTryIdle = d0.perTryIdle ∧ (retryExt hs d0).retryOn = d0.retryOn ∧
-    (retryExt hs d0).backoff = d0.backoff := by
+theorem retryExt_frame (O : Oracles) (hs : List PHeader) (d0 : DRetry) :
+    (retryExt O hs d0).numRetries = d0.numRetries ∧ (retryExt O hs d0).perTry = d0.perTry ∧
+    (retryExt O hs d0).perTryIdle = d0.perTryIdle ∧ (retryExt O hs d0).retryOn = d0.retryOn ∧
+    (retryExt O hs d0).backoff = d0.backoff := by
   unfold retryExt
   induction hs generalizing d0 with
   | nil => exact ⟨rfl, rfl, rfl, rfl, rfl⟩
   | cons h hs ih =>
     simp only [List.foldl_cons]
-    obtain ⟨a, b, c, d, e⟩ := ih (retryExtStep d0 h)
-    obtain ⟨a', b', c', d', e'⟩ := retryExtStep_frame d0 h
+    obtain ⟨a, b, c, d, e⟩ := ih (retryExtStep O d0 h)
+    obtain ⟨a', b', c', d', e'⟩ := retryExtStep_frame O d0 h
     exact ⟨a.trans a', b.trans b', c.trans c', d.trans d', e.trans e'⟩
 
 /-- **the retry policy**: attempts, per-try timeouts, retry-on, and back-off base and maximum *as sent* -/
-theorem retry_preserves (p : PRetry) :
-    (decodeRetry F p).numRetries = p.numRetries.getD 0 ∧ (decodeRetry F p).perTry = p.perTry.getD 0 ∧
-    (decodeRetry F p).perTryIdle = p.perTryIdle.getD 0 ∧ (decodeRetry F p).retryOn = p.retryOn ∧
-    (decodeRetry F p).backoff = p.backoff.map (fun b => ⟨b.base.getD 0, b.max.getD 0⟩) := by
+theorem retry_preserves (O : Oracles) (p : PRetry) :
+    (decodeRetry F O p).numRetries = p.numRetries.getD 0 ∧ (decodeRetry F O p).perTry = p.perTry.getD 0 ∧
+    (decodeRetry F O p).perTryIdle = p.perTryIdle.getD 0 ∧ (decodeRetry F O p).retryOn = p.retryOn ∧
+    (decodeRetry F O p).backoff = p.backoff.map (fun b => ⟨b.base.getD 0, b.max.getD 0⟩) := by
   rw [facts_decode]
   unfold decodeRetry
-  obtain ⟨a, b, c, d, e⟩ := retryExt_frame p.retriable
+  obtain ⟨a, b, c, d, e⟩ := retryExt_frame O p.retriable
     { retryOn := p.retryOn, numRetries := p.numRetries.getD 0, perTry := p.perTry.getD 0, perTryIdle := p.perTryIdle.getD 0 }
   cases hb : p.backoff with
   | none => exact ⟨a, b, c, d, e⟩
   | some bo => exact ⟨a, b, c, d, rfl⟩
 
 /-- the two retriable-header extensions: the last non-empty exact value of each name wins -/
-theorem retry_ext_headers (v : String) (hv : v ≠ "") (d0 : DRetry) :
-    (retryExt [⟨"kitexRetryErrorRate", .stringMatch (.exact v)⟩] d0).errRate = some v ∧
-    (retryExt [⟨"kitexRetryMethods", .stringMatch (.exact v)⟩] d0).methods = splitComma v := by
-  simp [retryExt, retryExtStep, extValue, hv]
+theorem retry_ext_headers (O : Oracles) (v : String) (hv : v ≠ "") (hp : O.parsesFloat v = true) (d0 : DRetry) :
+    (retryExt O [⟨"kitexRetryErrorRate", .stringMatch (.exact v)⟩] d0).errRate = some v ∧
+    (retryExt O [⟨"kitexRetryMethods", .stringMatch (.exact v)⟩] d0).methods = splitComma v := by
+  simp [retryExt, retryExtStep, extValue, hv, hp]
 
 /-- the destination clusters a route action lists, with weights (a single cluster has weight 1) -/
 def clustersOf : PClusterSpec → List (String × Nat)
@@ -91,14 +91,14 @@ def clustersOf : PClusterSpec → List (String × Nat)
   | _ => []
 
 /-- **one route**: path condition, header conditions, clusters with weights, timeout and retry policy -/
-theorem route_preserves (compiles : String → Bool) (r : PRoute) (m : PRouteMatch) (a : PRouteAction) (d : DRoute)
+theorem route_preserves (compiles : Oracles) (r : PRoute) (m : PRouteMatch) (a : PRouteAction) (d : DRoute)
     (hm : r.mtch = some m) (ha : r.action = .route a) (h : decodeRoute F compiles r = .ok d) :
     d.mtch = .http { path := (match m.path with | .path s => s | _ => ""),
                      pfx := (match m.path with | .pfx s => s | _ => ""),
                      headers := buildMatchers compiles m.headers } ∧
     d.clusters = clustersOf a.spec ∧
     d.timeout = a.timeout.getD 0 ∧
-    d.retry = (match a.retry with | some p => decodeRetry F p | none => {}) := by
+    d.retry = (match a.retry with | some p => decodeRetry F compiles p | none => {}) := by
   unfold decodeRoute at h
   simp only [hm, ha] at h
   cases hs : a.spec with
@@ -110,7 +110,7 @@ theorem route_preserves (compiles : String → Bool) (r : PRoute) (m : PRouteMat
     | some l => simp only [hs] at h; cases h; exact ⟨rfl, rfl, rfl, rfl⟩
 
 /-- **order**: routes are decoded one for one, in the order listed -/
-theorem routes_in_order (compiles : String → Bool) (rs : List PRoute) (ds : List DRoute)
+theorem routes_in_order (compiles : Oracles) (rs : List PRoute) (ds : List DRoute)
     (h : decodeRoutes F compiles rs = .ok ds) :
     ds.length = rs.length ∧ ∀ (i : Nat) (r : PRoute), rs[i]? = some r → ∃ d, ds[i]? = some d ∧ decodeRoute F compiles r = .ok d := by
   induction rs generalizing ds with
@@ -135,7 +135,7 @@ theorem routes_in_order (compiles : String → Bool) (rs : List PRoute) (ds : Li
         | succ i => simpa using h2 i r' (by simpa using hi)
 
 /-- virtual hosts are decoded one for one, in order, keeping their names -/
-theorem vhosts_in_order (compiles : String → Bool) (vs : List PVirtualHost) (ds : List DVirtualHost)
+theorem vhosts_in_order (compiles : Oracles) (vs : List PVirtualHost) (ds : List DVirtualHost)
     (h : decodeVHosts F compiles vs = .ok ds) :
     ds.length = vs.length ∧ ∀ (i : Nat) (v : PVirtualHost), vs[i]? = some v →
       ∃ d, ds[i]? = some d ∧ d.name = v.name ∧ decodeRoutes F compiles v.routes = .ok d.routes := by
@@ -257,7 +257,7 @@ theorem rate_limit_typed_struct (pre post : List PHttpFilter) (mt tpf : Nat) (hp
                 | some b => simp [transparent] at hpre
 
 /-- **an HTTP connection manager filter**: the named table (RDS) or the inline table, with the bucket attached -/
-theorem hcm_preserves (compiles : String → Bool) (h : PHcm) (mt tpf : Nat) (hr : rateLimitOf F h.httpFilters = .ok (mt, tpf)) :
+theorem hcm_preserves (compiles : Oracles) (h : PHcm) (mt tpf : Nat) (hr : rateLimitOf F h.httpFilters = .ok (mt, tpf)) :
     (∀ n, h.spec = .rds (some n) → n ≠ "" →
         decodeHcm F compiles h = .ok (n, some { http := none, thrift := none, maxTokens := mt, tokensPerFill := tpf })) ∧
     (∀ c d, h.spec = .routeConfig (some c) → decodeRouteConfig F compiles c = .ok d →
@@ -271,7 +271,7 @@ theorem hcm_preserves (compiles : String → Bool) (h : PHcm) (mt tpf : Nat) (hr
   · intro hs; simp [hs]
 
 /-- Thrift-proxy routes are decoded one for one, in order (method / service name, tags, clusters) -/
-theorem thrift_routes_in_order (compiles : String → Bool) (rs : List PThriftRoute) (ds : List DRoute)
+theorem thrift_routes_in_order (compiles : Oracles) (rs : List PThriftRoute) (ds : List DRoute)
     (h : decodeThriftRoutes compiles rs = .ok ds) : ds.length = rs.length := by
   induction rs generalizing ds with
   | nil => simp [decodeThriftRoutes] at h; subst h; rfl
@@ -310,7 +310,7 @@ theorem thrift_routes_in_order (compiles : String → Bool) (rs : List PThriftRo
 
 /-! non-vacuity -/
 example : rateLimitOf F [.other, .typed (some .otherUrl), .typed (some (.rateLimit (.ok (some (10, some 101)))))] = .ok (10, 101) := by rfl
-example : (match decodeRoute F (fun _ => true)
+example : (match decodeRoute F ⟨fun _ => true, fun _ => true⟩
     ⟨"r", some ⟨.path "/p", [⟨"k", .stringMatch (.exact "v")⟩]⟩,
      .route ⟨.weighted (some [("a", some 3), ("b", none)]), some 5000000, some ⟨"5xx", some 2, some 100000000, none, [], some ⟨some 10000000, some 30000000⟩⟩⟩⟩ with
    | .ok d => (d.clusters, d.timeout, d.retry.backoff) | _ => ([], 0, none))
